@@ -39,7 +39,7 @@ func (g *Gen) emit(line string) string {
 	ans := g.emit1(line)
 	// after every mutating op the full observation is compared with the model
 	switch strings.Fields(line)[0] {
-	case "dotx", "play", "playminer", "walk", "reopen":
+	case "dotx", "play", "playminer", "walk", "reopen", "race2", "balrace":
 		g.emit1("obs")
 	case "confirm", "truncate":
 		g.emit1("ledger")
@@ -49,6 +49,7 @@ func (g *Gen) emit(line string) string {
 }
 
 func (g *Gen) emit1(line string) string {
+	g.out.Begin(line)
 	ans := g.e.exec(line)
 	g.out.Emit(line, cmpAns(line, ans))
 	g.out.Count(strings.Fields(line)[0] + ":" + strings.SplitN(ans, " ", 2)[0][:min(len(strings.SplitN(ans, " ", 2)[0]), 14)])
@@ -316,6 +317,60 @@ func (g *Gen) scenario(p *Profile) {
 			if line, ok := g.genXfer(e.specNow(), g.ledgerHeight(), vs[g.r.Intn(len(vs))]); ok {
 				g.emit(line)
 				g.emit(fmt.Sprintf("dotx %d", len(w.Txs)-1))
+			}
+		case "race":
+			// two submissions at a deterministic point of a concurrent schedule; half of the pairs conflict
+			cur := e.specNow()
+			var a, b int
+			if g.r.Chance(1, 2) {
+				l1, ok := g.genXfer(cur, g.ledgerHeight(), "")
+				if !ok {
+					break
+				}
+				g.emit(l1)
+				a = len(w.Txs) - 1
+				if g.r.Chance(1, 2) {
+					// the same inputs again
+					t := w.Txs[a]
+					t2 := &TxInfo{Idx: len(w.Txs), From: t.From, Ins: t.Ins}
+					sum := big.NewInt(0)
+					for _, r := range t.Ins {
+						sum.Add(sum, r.Amt)
+					}
+					t2.Outs = []OutInfo{{Addr: g.users()[g.r.Intn(3)], Amt: sum}}
+					g.emit(t2.line("xtx", ""))
+				} else if l2, ok := g.genXfer(cur, g.ledgerHeight(), ""); ok {
+					g.emit(l2)
+				} else {
+					break
+				}
+				b = len(w.Txs) - 1
+			} else {
+				l1 := g.genKtx("live")
+				if l1 == "" {
+					break
+				}
+				g.emit(l1)
+				a = len(w.Txs) - 1
+				l2 := g.genKtx("live")
+				if l2 == "" {
+					break
+				}
+				g.emit(l2)
+				b = len(w.Txs) - 1
+			}
+			if a != b {
+				g.emit(fmt.Sprintf("race2 %d %d", a, b))
+			}
+		case "balrace":
+			if line, ok := g.genXfer(e.specNow(), g.ledgerHeight(), ""); ok {
+				g.emit(line)
+				t := w.Txs[len(w.Txs)-1]
+				addr := t.From
+				if g.r.Chance(1, 2) && len(t.Outs) > 0 && t.Outs[0].Addr != "$" {
+					addr = t.Outs[0].Addr
+				}
+				g.emit(fmt.Sprintf("balrace %s %d", addr, t.Idx))
 			}
 		case "xfer-hold":
 			// build a valid transaction now, submit it later (it may be stale by then)
